@@ -881,7 +881,10 @@ func c16runChain(r *kit.Run, rng *rand.Rand, s c16Scn, first bool) {
 	// successor, the stored session of the latest connection (if that one asked for a persistent
 	// session) must still hold every subscription the model says it has: it is what the next
 	// cleanSession=false reconnect is restored from.
-	lateCheck := func() bool {
+	//
+	// The same check runs right BEFORE the late teardown (after=false), so that a stored copy that
+	// was already lost when the latest connection itself ended is not blamed on the late teardown.
+	lateCheck := func(after bool) bool {
 		if cur < 0 || ch[cur].Clean {
 			return true
 		}
@@ -892,16 +895,22 @@ func c16runChain(r *kit.Run, rng *rand.Rand, s c16Scn, first bool) {
 		tp, ok := rb.persistedTopics(cid)
 		for j := 0; j <= cur; j++ {
 			if state[j] == present && (!ok || tp[filt(j)] != 1) {
-				bad("late-superseded-teardown-removed-successors-stored-session", "stored-copy-lost-a-subscription", map[string]interface{}{"persisted_topics": tp, "persisted_copy_exists": ok, "missing_filter": filt(j), "subscribed_by_connection": j, "latest_connection": cur, "latest_connection_ended": down[cur]})
+				fam, when := "late-superseded-teardown-removed-successors-stored-session", "stored session after the late teardown of a superseded connection"
+				if !after {
+					fam, when = "stored-session-of-persistent-connection-lost-before-any-later-teardown", "stored session of the latest connection, before the late teardown of a superseded connection"
+				}
+				bad(fam, "stored-copy-lost-a-subscription", map[string]interface{}{"persisted_topics": tp, "persisted_copy_exists": ok, "missing_filter": filt(j), "subscribed_by_connection": j, "latest_connection": cur, "latest_connection_ended": down[cur]})
 				sigShape = c16chainShape(ch, cur)
 				if down[cur] {
 					sigShape += "-" + ch[cur].Next
 				}
-				emit(cur, "stored session after the late teardown of a superseded connection")
+				emit(cur, when)
 				return false
 			}
 		}
-		r.Count("chain_stored_session_intact_after_late_superseded_teardown", 1)
+		if after {
+			r.Count("chain_stored_session_intact_after_late_superseded_teardown", 1)
+		}
 		return true
 	}
 	var teardown func(k int, how string, superseded bool) bool
@@ -938,11 +947,11 @@ func c16runChain(r *kit.Run, rng *rand.Rand, s c16Scn, first bool) {
 		// point 5: the connection that THIS one had superseded has been waiting for this end
 		if k > 0 && ch[k-1].Next == "takeover" && ch[k-1].Point == 5 && !down[k-1] {
 			step("#%d: superseded long ago, its end comes only now, after the end of its successor #%d", k-1, k)
-			if !teardown(k-1, ch[k-1].End, true) {
+			if !lateCheck(false) || !teardown(k-1, ch[k-1].End, true) {
 				return false
 			}
 			r.Count("chain_superseded_torn_down_after_successors_end", 1)
-			if !lateCheck() {
+			if !lateCheck(true) {
 				return false
 			}
 		}
@@ -1124,11 +1133,11 @@ func c16runChain(r *kit.Run, rng *rand.Rand, s c16Scn, first bool) {
 		}
 		if k >= 2 && ch[k-2].Next == "takeover" && ch[k-2].Point == 6 && !down[k-2] && down[k-1] {
 			step("#%d: superseded long ago, its end comes only now, after the end of its successor #%d and the reconnect #%d", k-2, k-1, k)
-			if !teardown(k-2, ch[k-2].End, true) {
+			if !lateCheck(false) || !teardown(k-2, ch[k-2].End, true) {
 				return
 			}
 			r.Count("chain_superseded_torn_down_after_successors_end_and_next_reconnect", 1)
-			if !lateCheck() {
+			if !lateCheck(true) {
 				return
 			}
 			if !judge(k, "after the late teardown of the connection superseded by its predecessor") {
